@@ -45,10 +45,35 @@ def seeded():
     return "\n".join(out)
 
 
+def neutral():
+    d = os.path.join(V, "neutral")
+    if not os.path.isdir(d):
+        return "(none)"
+    out = ["| name | change | flagged by |", "|------|--------|------------|"]
+    n = bad = 0
+    for name in sorted(os.listdir(d)):
+        mp = os.path.join(d, name, "meta.json")
+        if not os.path.isfile(mp):
+            continue
+        m = json.load(open(mp))
+        n += 1
+        cq = m.get("checks_quick") or {}
+        caught = cq.get("caught_by")
+        if caught:
+            bad += 1
+        summ = (m.get("summary") or "").replace("|", "/").replace("\n", " ")
+        if len(summ) > 240:
+            summ = summ[:237] + "..."
+        out.append("| %s | %s | %s |" % (name, summ, ", ".join(caught) if caught else ("nothing" if cq else "(not run)")))
+    out.append("")
+    out.append("%d behaviour-preserving changes, %d flagged." % (n, bad))
+    return "\n".join(out)
+
+
 def main():
     p = os.path.join(V, "DESIGN.md")
     s = open(p).read()
-    for tag, fn in (("MUTANTS-TABLE", mutants), ("SEEDED-TABLE", seeded)):
+    for tag, fn in (("MUTANTS-TABLE", mutants), ("SEEDED-TABLE", seeded), ("NEUTRAL-TABLE", neutral)):
         block = "<!-- %s -->\n%s\n<!-- /%s -->" % (tag, fn(), tag)
         if "<!-- /%s -->" % tag in s:
             s = re.sub(r"<!-- %s -->.*?<!-- /%s -->" % (tag, tag), lambda m: block, s, flags=re.S)
